@@ -317,6 +317,8 @@ def diff(a, b, tol_point=1e-9, tol_real=0.0, angle_mod=True, path="", tol_angle=
             d = abs(wrap(a[1] - b[1])) if angle_mod else abs(a[1] - b[1])
             if d > tol_angle:
                 yield (path, "wrong-orientation", f"expected {a[1]} got {b[1]}")
+            elif tol_angle == 0 and not angle_mod and a[1] == 0 and b[1] == 0 and math.copysign(1.0, a[1]) != math.copysign(1.0, b[1]):
+                yield (path, "sign-of-zero-changed", f"expected {a[1]} got {b[1]} (a format that stores doubles keeps the bit pattern)")
             elif angle_mod and not (-2 * math.pi - 1e-9 <= b[1] <= 2 * math.pi + 1e-9):
                 yield (path, "orientation-out-of-range", f"{b[1]}")
         elif a[0] == "OI":
@@ -328,6 +330,8 @@ def diff(a, b, tol_point=1e-9, tol_real=0.0, angle_mod=True, path="", tol_angle=
         elif abs_real is not None:
             if any(abs(x - y) > abs_real + 4e-16 * abs(x) for x, y in zip(a[1:], b[1:])):
                 yield (path, "wrong-real", f"expected {a[1:]} got {b[1:]}")
+            elif abs_real == 0 and any(x == 0 and y == 0 and math.copysign(1.0, x) != math.copysign(1.0, y) for x, y in zip(a[1:], b[1:])):
+                yield (path, "sign-of-zero-changed", f"expected {a[1:]} got {b[1:]} (a format that stores doubles keeps the bit pattern)")
         else:
             if any(abs(x - y) > tol_real * max(1.0, abs(x)) + (tol_real if tol_real else 0) for x, y in zip(a[1:], b[1:])):
                 yield (path, "wrong-real", f"expected {a[1:]} got {b[1:]}")
